@@ -330,6 +330,16 @@ def directed(tier):
                     ops.append(("select", q, 1, 0))
                     ret.append(len(consts) + q)
             out.append({"ty": ty, "nargs": 0, "ops": ops, "ret": ret})
+        # one constant and one NON-constant operand, in both orders (unit / zero / absorbing-element folds on either side), and x op x
+        if not ty.startswith("f"):
+            for k in [(k,) for k in INT_OPS]:
+                ops = [("const", c) for c in consts]
+                n0 = 1 + len(consts)  # value 0 is the block argument, 1.. are the constants
+                for i in range(len(consts)):
+                    ops.append(k + (1 + i, 0))
+                    ops.append(k + (0, 1 + i))
+                ops.append(k + (0, 0))
+                out.append({"ty": ty, "nargs": 1, "ops": ops, "ret": list(range(n0, n0 + 2 * len(consts) + 1))})
     return out
 
 
@@ -348,7 +358,7 @@ def explore(tier, seed):
                 seen.add(k)
                 fails.append(f)
     return {"cases": cases, "failures": fails, "exhaustive": False,
-            "bound": f"directed family (every int/float binary op and cmpi predicate on every ordered pair of boundary constants per type) + {n} seeded single-block programs (<= 6 arith ops of 20 integer kinds, cmpi, select, 4 float kinds; types i1/i8/i32/i64/index/f32/f64; boundary "
+            "bound": f"directed families (every int/float binary op and cmpi predicate on every ordered pair of boundary constants per type; every int binary op with one boundary constant and one function argument in both operand orders, and x op x) + {n} seeded single-block programs (<= 6 arith ops of 20 integer kinds, cmpi, select, 4 float kinds; types i1/i8/i32/i64/index/f32/f64; boundary "
                      f"constants) x pipelines {PASSES}; evaluated before/after on 12 boundary input vectors with an independent reference evaluator"}
 
 
@@ -390,6 +400,48 @@ def check_right_element(opname, which, w, c, x):
     target = x % M if which == "unit" else c % M
     if val != target:
         return {"class": cls.__name__, "width": w, "constant": c, "operand bits": x, f"is_right_{which}": True, "x op c": val, "expected": target}
+    return None
+
+
+@rechecked
+def check_fold_method(opname, w, lc, rc, a, b):
+    """The real K.fold() on a real op whose operands are constants (lc/rc) or block arguments; result vs the reference semantics."""
+    from xdsl.dialects import arith
+    from xdsl.dialects.builtin import IntegerAttr, IntegerType
+    from xdsl.ir import Block, SSAValue
+
+    cls = next(k for k in vars(arith).values() if isinstance(k, type) and getattr(k, "name", None) == opname)
+    t = IntegerType(w)
+    blk = Block(arg_types=[t, t])
+    M = 1 << w
+    ops = []
+    vals = []
+    for is_const, v, arg in ((lc, a, blk.args[0]), (rc, b, blk.args[1])):
+        if is_const:
+            c = arith.ConstantOp(IntegerAttr(v, t, truncate_bits=True))
+            ops.append(c)
+            vals.append(c.result)
+        else:
+            vals.append(arg)
+    op = cls(vals[0], vals[1])
+    blk.add_ops(ops + [op])
+    r = op.fold()
+    if r is None:
+        return None
+    try:
+        exp = ev_int(opname.split(".")[1], w, a % M, b % M)
+    except Poison:
+        return None
+    got = r[0]
+    if isinstance(got, SSAValue):
+        which = "lhs" if got is vals[0] else "rhs"
+        den = (a if which == "lhs" else b) % M
+        if den != exp:
+            return {"class": cls.__name__, "width": w, "lhs": a, "rhs": b, "lhs constant": lc, "rhs constant": rc,
+                    "fold returned": f"the {which} operand (= {den})", "MLIR result bits": exp}
+        return None
+    if got.value.data % M != exp:
+        return {"class": cls.__name__, "width": w, "lhs": a, "rhs": b, "fold returned constant": got.value.data, "MLIR result bits": exp}
     return None
 
 
